@@ -304,3 +304,17 @@ fn connect_graph<T: FloatT>(L: &mut CscMatrix<T>) {
         }
     }
 }
+
+/// verification hook: the analysis of one PSD cone's pattern, exactly as done at construction
+#[cfg(feature = "verif")]
+pub(crate) fn verif_analyse_pattern(nz_mask: &mut [bool], conedim: usize, merge_method: &str) -> Option<SparsityPattern> {
+    let mut info = ChordalInfo::<f64> {
+        init_dims: (0, 0),
+        init_cones: vec![],
+        spatterns: vec![],
+        H: None,
+        cone_maps: None,
+    };
+    info.analyse_psdtriangle_sparsity_pattern(nz_mask, conedim, 0, merge_method);
+    info.spatterns.pop()
+}
